@@ -13,7 +13,7 @@ MODEL_FUNCTIONS = ["repair_dna", "path_matching", "set_vt", "dna_to_number"]
 RULE = ("graphs: generated coding graphs and arbitrary arc subsets of order 1..3 (thorough 4) with any row as start vertex "
         "(dead start vertices included); strands over ACGT of length k..40: walks, walks with 1..6 edits anywhere (first "
         "symbol, last window), random strings, strings of length exactly k; check absent / right / wrong; indel handling "
-        "on/off; heap limits 0.5, 1, 10, 1e3, 1e9.  The implementation runs under a row-read budget derived from the proved "
+        "on/off; a closed walk repeated 40..1500 times (thorough 2500) with one uniquely repairable substitution per copy (up to ~50000 nt and as many detected errors as copies); heap limits 0.5, 1, 10, 1e3, 1e9.  The implementation runs under a row-read budget derived from the proved "
         "look-up bound; the observable is completion, the type/shape of the result and the full result compared with the "
         "model (candidates and the four statistics).  non-trivial = strand that is not a walk; distinct by payload")
 TRUSTED_BASE = [
@@ -35,6 +35,44 @@ GC = [[-1, -1, -1, -1], [4, -1, -1, 7], [8, -1, -1, 11], [-1, -1, -1, -1], [-1, 
       [8, -1, -1, 11], [-1, -1, -1, -1]]
 
 
+def unique_error_block(rng):
+    """(k, rows, v0, block, edited block): a closed walk from v0 of length >= 3k+2 and one substitution in it that the library
+    repairs uniquely (checked on three copies with the library itself -- this only shapes the input)"""
+    k, t, rows = rc.generated_graph(rng, 3)
+    if k < 2:
+        return None
+    live = gen.live_vertices(rows)
+    if not live:
+        return None
+    v0 = rng.choice(live)
+    for _ in range(40):
+        w, v = "", v0
+        for step in range(60):
+            nxt = [(j, x) for j, x in enumerate(rows[v]) if x >= 0]
+            if not nxt:
+                break
+            j, v = rng.choice(nxt)
+            w += NUC[j]
+            if v == v0 and len(w) >= 3 * k + 4:
+                break
+        if v != v0 or len(w) < 3 * k + 4:
+            continue
+        for _e in range(12):
+            i = rng.randrange(k, len(w) - k)
+            c = rng.choice([x for x in NUC if x != w[i]])
+            e = w[:i] + c + w[i + 1:]
+            if gen.is_walk(rows, v0, e * 3):
+                continue
+            try:
+                out = dsw.repair_dna(dna_sequence=e * 3, accessor=gen.acc_array(rows), start_index=v0, observed_length=k,
+                                     has_indel=False)
+            except Exception:  # noqa
+                continue
+            if list(out[0]) == [w * 3] and out[1][0] == 3:
+                return k, rows, v0, w, e
+    return None
+
+
 def payloads(rng, tier):
     n = {"quick": 1500, "thorough": 25000, "search": 1500}[tier]
     kmax = {"quick": 3, "thorough": 4, "search": 2}[tier]
@@ -43,6 +81,21 @@ def payloads(rng, tier):
     for m in ([3, 20, 62, 63, 64, 65] if tier != "search" else [3, 63]):
         yield "repair", {"k": 2, "rows": GC, "v0": 1, "s": "TCTCTATCTCTC" * m, "vt": "none", "indel": True,
                          "heap": 1e3, "kind": "ambiguous"}
+    # strands with very MANY errors each of which has exactly one repair: a closed walk repeated R times with the same
+    # substitution in every copy -- the candidate enumeration is reached with R factors of size one (deep products, long
+    # fragment lists); R up to 1500 (33000 nt for a 22-nt block)
+    made = 0
+    for _try in range(60):
+        if made >= {"quick": 3, "thorough": 8, "search": 2}[tier]:
+            break
+        blk = unique_error_block(rng)
+        if blk is None:
+            continue
+        k, rows, v0, w, e = blk
+        made += 1
+        for R in {"quick": [40, 300, 1200], "thorough": [40, 300, 1200, 1500, 2500], "search": [1200]}[tier]:
+            yield "repair", {"k": k, "rows": rows, "v0": v0, "s": e * R, "vt": rng.choice(["none", "none", "wrong"]),
+                             "indel": False, "heap": 1e3, "kind": "manyunique"}
     for _ in range(n):
         if rng.random() < 0.6:
             k, t, rows = rc.generated_graph(rng, kmax)
@@ -97,6 +150,8 @@ def build(stream, p):
     # proved bound on graph look-ups (C10_total), each look-up costs at most 3 row reads in the implementation
     budget = rc.read_budget(n, k)
     call, impl = rc.repair_case_parts(rows, v0, k, s, vt, p["indel"], p["heap"], budget)
+    if n > 6000:
+        call = None          # the extracted model is quadratic in the strand length: strands this long are judged by the oracle only
 
     def oracle(ans, raw):
         if isinstance(raw, Budget):
